@@ -59,7 +59,7 @@ PHASES = ["forward", "backward", "backward_cg", "double_backward"]
 DEBUGS = ["off", "set", "ctx"]
 FN_FUNCTIONALS = F.FUNCTIONALS + ["jac_solve"]
 QUICK_KINDS = ["pure", "nn_flat", "nn_nested", "nn_tied", "nn_extra", "em_leaves", "em_derived", "em_alias",
-               "em_list", "em_dict", "em_nn", "em_call", "em_cplx", "sib:nn_nested", "sib:em_list", "multi_em_em",
+               "em_list", "em_dict", "em_nn", "em_nn2", "em_call", "em_cplx", "sib:nn_nested", "sib:em_list", "multi_em_em",
                "multi_em_nn", "multi_nn_em"]
 ALL_FN_KINDS = [k for k in F.ALL_KINDS if k != "script"]
 LO_KINDS = {"solve": ["lo_herm", "lo_alias", "lo_list", "lo_rmv", "lo_sum"],
